@@ -15,9 +15,9 @@
         ->   (0 results state refs)
         results : one per op: (0) returned None | (0 z) returned z | (1 kind) raised
         state   : (modes digital analog), each a list of (pin value) with unique keys
-        refs    : one per op: () for non-reads; for reads (g r) where r is what the
+        refs    : one per op: () for non-reads; for reads (r) where r is what the
                   reference memory semantics [ref_dread]/[ref_aread] of Host/Core.v demands
-                  for the history before the call and g the guard bit (always 1 for analog)
+                  for the history before the call
    (1 x fl fh tl th)                         Utils.map on five nums
         ->   (0 q) | (1 kind) | (3) not modelled (a None argument)
    (2 d)                                     Utils.sleep on a num
@@ -112,8 +112,8 @@ Fixpoint refs (pre rest : list op) : list wv :=
   | [] => []
   | o :: r =>
       (match o with
-       | DRead p => let h := history (normalise p) pre in WL [wbool (guard h); WI (ref_dread h)]
-       | ARead p => let h := history (normalise p) pre in WL [wbool true; WI (ref_aread h)]
+       | DRead p => WL [WI (ref_dread (history (normalise p) pre))]
+       | ARead p => WL [WI (ref_aread (history (normalise p) pre))]
        | _ => WL []
        end) :: refs (pre ++ [o]) r
   end.
